@@ -256,17 +256,78 @@ theorem frozen_fields :
     simp only [Concept.frozenNames, List.mem_cons, List.not_mem_nil, or_false] at hk
     rcases hk with rfl | rfl | rfl | rfl | rfl | rfl <;> simp [Concept.setattr]
 
-/-- LIMIT of the freeze (a gap of the current code, see the final report / known finding): the class
-    defines no `__delattr__`, so deleting a defining field succeeds and empties its `__dict__` slot, after
-    which `__setattr__` accepts a new value for it: `del c.extent_i; c.extent_i = …` re-assigns the field. -/
-theorem frozen_fields_delete_gap :
-    ∀ key ∈ Concept.frozenNames, ∃ d, Concept.delattr Concept.dictAfterInit key = .ok d ∧
-      Concept.setattr d key = .ok () := by
+/-- deleting any of the six defining fields raises `FrozenInstanceError` whatever the state of the instance
+    (so the concept is left unchanged); other instance attributes such as `measures` remain deletable and
+    assignable; `support` (a property) can be neither deleted nor assigned. -/
+theorem frozen_fields_delete :
+    (∀ key ∈ Concept.frozenNames, ∀ dict, Concept.delattr dict key = .error .FrozenInstanceError) ∧
+    (∀ key ∈ Concept.frozenNames, ∀ dict, (Concept.step dict (.del key)).1 = dict) ∧
+    (∃ d, Concept.delattr Concept.dictAfterInit "measures" = .ok d ∧ "measures" ∉ d ∧
+          (∀ key ∈ Concept.frozenNames, key ∈ d) ∧ Concept.setattr d "measures" = .ok ()) ∧
+    Concept.delattr Concept.dictAfterInit "support" = .error .AttributeError := by
+  have h1 : ∀ key ∈ Concept.frozenNames, ∀ dict, Concept.delattr dict key = .error .FrozenInstanceError := by
+    intro key hk dict
+    simp [Concept.delattr, hk]
+  refine ⟨h1, ?_, ?_, by simp [Concept.delattr, Concept.dictAfterInit, Concept.frozenNames]⟩
+  · intro key hk dict
+    simp [Concept.step, h1 key hk dict]
+  · refine ⟨_, by simp [Concept.delattr, Concept.dictAfterInit, Concept.frozenNames]; rfl, ?_, ?_, ?_⟩
+    · simp
+    · intro key hk
+      simp only [Concept.frozenNames, List.mem_cons, List.not_mem_nil, or_false] at hk
+      rcases hk with rfl | rfl | rfl | rfl | rfl | rfl <;> simp
+    · simp [Concept.setattr, Concept.frozenNames]
+
+/-- there is no route around the freeze: after ANY sequence of attribute assignments and deletions on a
+    constructed concept (exceptions caught), every defining field is still present, assigning it still raises
+    `FrozenInstanceError` and so does deleting it — in particular `del c.extent_i; c.extent_i = …` fails twice. -/
+theorem frozen_fields_no_route (ops : List Concept.AttrOp) :
+    ∀ key ∈ Concept.frozenNames,
+      key ∈ Concept.runOps Concept.dictAfterInit ops ∧
+      Concept.setattr (Concept.runOps Concept.dictAfterInit ops) key = .error .FrozenInstanceError ∧
+      Concept.delattr (Concept.runOps Concept.dictAfterInit ops) key = .error .FrozenInstanceError := by
+  have inv : ∀ (ops : List Concept.AttrOp) (dict : List String),
+      (∀ key ∈ Concept.frozenNames, key ∈ dict) →
+      ∀ key ∈ Concept.frozenNames, key ∈ Concept.runOps dict ops := by
+    intro ops
+    induction ops with
+    | nil => intro dict h; exact h
+    | cons op ops ih =>
+      intro dict h
+      apply ih
+      intro key hk
+      cases op with
+      | set k =>
+        simp only [Concept.step]
+        split
+        · split
+          · exact h key hk
+          · exact List.mem_cons_of_mem _ (h key hk)
+        · exact h key hk
+      | del k =>
+        simp only [Concept.step]
+        split
+        · rename_i d hd
+          unfold Concept.delattr at hd
+          split at hd
+          · cases hd
+          · rename_i hnf
+            split at hd
+            · cases hd
+              have hne : key ≠ k := by
+                rintro rfl
+                exact hnf (by simpa using hk)
+              exact (List.mem_erase_of_ne hne).mpr (h key hk)
+            · cases hd
+        · exact h key hk
   intro key hk
-  simp only [Concept.frozenNames, List.mem_cons, List.not_mem_nil, or_false] at hk
-  rcases hk with rfl | rfl | rfl | rfl | rfl | rfl <;>
-    exact ⟨_, by simp [Concept.delattr, Concept.dictAfterInit]; rfl, by
-      simp [Concept.setattr, Concept.frozenNames]⟩
+  have hmem := inv ops Concept.dictAfterInit (by
+    intro k hk'
+    simp only [Concept.frozenNames, List.mem_cons, List.not_mem_nil, or_false] at hk'
+    rcases hk' with rfl | rfl | rfl | rfl | rfl | rfl <;> simp [Concept.dictAfterInit]) key hk
+  refine ⟨hmem, ?_, ?_⟩
+  · simp [Concept.setattr, hmem, hk]
+  · simp [Concept.delattr, hk]
 
 /-! ## from_objects -/
 
